@@ -20,6 +20,9 @@ be that of a fresh object with set 2's fields (pure model) and decode to exactly
 Observer purity: between two packs of one object, str / repr / asbytes / _debug_str / from_stat / == / Message.add_string
 must leave every field (None included) and the encoding unchanged.  End to end: server list_folder() -> NAME reply ->
 client listdir_attr() with every field independently absent; decoded == what the server interface returned.
+Re-entrancy: packing/decoding one set while, at every source line of sftp_attr.py (sys.settrace), another set is packed
+and decoded in full must give the un-interleaved bytes and fields (what two SFTP sessions in one process need); static
+fact: class SFTPAttributes holds no class-level mutable attribute.
 Reporting is bounded (Budget): at most MAX_FAILS failures and
 MAX_DISAGREE disagreements are recorded with clipped details, and the run stops early once objects alias.
 """
@@ -213,6 +216,75 @@ def independence_probe(ctx, budget, A, Message):
         steps.append(("pack - - - - - - %s" % ext_tok([(b"pv-built-key", b"pv-built-value")]), hx(m.asbytes())))
         look("build", "a = SFTPAttributes(); a.attr[b'pv-built-key'] = b'pv-built-value'; a._pack(msg)")
     return steps, ok
+
+
+def interleaved_pack(A, Message, c, other):
+    """Pack and decode `c` while, at every source line executed inside paramiko/sftp_attr.py, ANOTHER attribute set
+    (`other`) is built, packed and decoded in full — what a second thread (a second SFTP session in the same
+    process) would do at that point.  Attribute objects share no state, so the result must be the same as without the
+    interleaving."""
+    import sys
+
+    busy = [False]
+
+    def local(frame, event, arg):
+        if event == "line" and not busy[0]:
+            busy[0] = True
+            try:
+                m_ = Message()
+                other.build(A)._pack(m_)
+                A._from_msg(Message(m_.asbytes()))
+            finally:
+                busy[0] = False
+        return local
+
+    def tracer(frame, event, arg):
+        if frame.f_code.co_filename.endswith("paramiko/sftp_attr.py") and not busy[0]:
+            return local
+        return None
+
+    sys.settrace(tracer)
+    try:
+        m = Message()
+        c.build(A)._pack(m)
+        data = m.asbytes()
+        back = A._from_msg(Message(data))
+    finally:
+        sys.settrace(None)
+    return data, back
+
+
+def class_level_mutables(A):
+    """AST fact: class SFTPAttributes has no class-level mutable attribute (bytearray / list / dict / set / BytesIO ...):
+    anything of that kind is shared by every instance and every thread.  Returns the offending names."""
+    import ast
+    import inspect
+    import textwrap
+
+    tree = ast.parse(textwrap.dedent(inspect.getsource(A)))
+    cls = tree.body[0]
+    bad = []
+    for node in cls.body:
+        targets, value = [], None
+        if isinstance(node, ast.Assign):
+            targets, value = node.targets, node.value
+        elif isinstance(node, ast.AnnAssign) and node.value is not None:
+            targets, value = [node.target], node.value
+        if value is None:
+            continue
+        mutable = isinstance(value, (ast.List, ast.Dict, ast.Set, ast.ListComp, ast.DictComp, ast.SetComp))
+        if isinstance(value, ast.Call):
+            fn = value.func
+            nm = fn.id if isinstance(fn, ast.Name) else fn.attr if isinstance(fn, ast.Attribute) else ""
+            mutable = nm in ("bytearray", "list", "dict", "set", "BytesIO", "Message", "defaultdict", "deque",
+                             "OrderedDict", "array", "memoryview", "Struct") or mutable
+        if mutable:
+            bad += [t.id for t in targets if isinstance(t, ast.Name)]
+    # and at run time: whatever the class object holds
+    for k, v in vars(A).items():
+        if isinstance(v, (bytearray, list, dict, set)) and not k.startswith("__") and k not in bad:
+            bad.append(k)
+    return bad
 
 
 class Runaway(Exception):
@@ -568,6 +640,39 @@ def run(ctx):
             budget.fail("observer-changes-attributes:" + (culprit or "sequence"), case,
                         "fields changed: %s (%r -> %r); encoding %s -> %s" % (
                             changed or "-", before[0], after[0], wire0.hex(), wire1.hex()))
+
+    # ---- re-entrancy: _pack/_unpack of one object interleaved (at every source line of sftp_attr.py) with the full
+    # pack/unpack of ANOTHER object must give the un-interleaved result; plus the static fact behind it
+    shared = class_level_mutables(A)
+    ctx.extra["class_level_mutable_attributes"] = shared
+    if shared:
+        budget.disagree("AST fact: class SFTPAttributes has no class-level mutable attribute",
+                        {"source": "paramiko/sftp_attr.py"}, "none", "class-level mutable attribute(s): %s" % shared)
+    n_il = 0 if budget.abort else (3000 if ctx.thorough else 300)
+    il_cases = [(rng.choice(wf), rng.choice(wf)) for _ in range(n_il)]
+    il_cases[:32] = [(g_, wf[(7 * j_ + 3) % len(wf)]) for j_, g_ in
+                     enumerate([c for c in cases if c.tag == "grid" and c.well_formed()][5:453:14])]
+    model_il = ctx.driver("C33", [c.pack_req() for c, _ in il_cases])
+    il_fails = 0
+    for k, (c, other) in enumerate(il_cases):
+        if budget.abort or il_fails >= 8:
+            break
+        m0 = Message()
+        c.build(A)._pack(m0)
+        plain = m0.asbytes()
+        data, back = interleaved_pack(A, Message, c, other)
+        ctx.case(("interleaved", c.pack_req(), other.pack_req()), True)
+        ctx.dist("interleaved-pack")
+        case = {"packing": c.describe(), "interleaved_with (at every line of sftp_attr.py)": other.describe()}
+        if model_il is not None and model_il[k] != hx(data):
+            budget.disagree("pack interleaved with another object's pack (pure model)", case, model_il[k], hx(data))
+        want = ([None if v is None else int(v) for v in c.fields()], [(asb(k_), asb(v_)) for k_, v_ in c.ext])
+        got = ([back.st_size, back.st_uid, back.st_gid, back.st_mode, back.st_atime, back.st_mtime],
+               list(back.attr.items()))
+        if data != plain or got != want:
+            il_fails += 1
+            budget.fail("pack-not-reentrant", case,
+                        "alone: %s; interleaved: %s; decoded %r, sent %r" % (plain.hex(), data.hex(), got, want))
 
     # ---- malformed stream: arbitrary and mutated bytes
     for _ in range(0 if budget.abort else n_bad):
